@@ -158,7 +158,7 @@ def tlc(run, module, cfg, workers=1, env=None, heap="3g", timeout=1800, extra=No
         raise Infra("TLC timed out on %s after %ds" % (tag, timeout))
     res.wall = time.time() - t0
     shutil.rmtree(meta, ignore_errors=True)
-    for line in p.stdout.splitlines():
+    for line in p.stdout.split("\n"):
         res.lines.append(line)
         if line.startswith('"CASE '):
             try:
